@@ -4,11 +4,11 @@ CONSTANTS
   Fix = FALSE
   Sigma = {97, 98}
   PatLens = {1, 2}
-  Dg = {1, 2, 3}
+  Dg = {1, 2}
   MaxDigits = 2
   WordAlphabet = {97, 98, 65}
-  MaxWordLen = 5
-  MaxMixedLen = 3
+  MaxWordLen = 4
+  MaxMixedLen = 2
   MaxExcLen = 2
   CodecWordLens = {3}
   NSlices = 1
@@ -22,4 +22,5 @@ CONSTANTS
   Words <- MCWordsMixed
   Lc <- MCLc
 INVARIANTS StateIsBuild Refines CodecRoundTrip
+CONSTRAINT AscendingPatterns
 CHECK_DEADLOCK FALSE
